@@ -37,7 +37,8 @@ fn c11c_delta_reference_inverse_split() {
 #[kani::unwind(10)]
 fn c06i_delta_decode_total() {
     let dist: usize = kani::any();
-    let mut r = DeltaReader::new(Src::<8>::any(), dist);
+    let mut src = Src::<8>::any();
+    let mut r = DeltaReader::new(&mut src, dist);
     let mut out = [0u8; 8];
     let n = r.read(&mut out);
     assert!(n.is_ok());
@@ -62,7 +63,7 @@ fn c05d_delta_writer_short_write() {
     kani::assume(dist >= 1 && dist <= 4);
     let mut sink = FaultySink::<16>::new();
     sink.chunk = 4;
-    let mut w = DeltaWriter::new(sink, dist);
+    let mut w = DeltaWriter::new(&mut sink, dist);
     let n = w.write(&x);
     assert!(matches!(n, Ok(4)), "the sink accepted 4 bytes: the writer must report 4");
     let m = w.write(&x[4..]);
@@ -84,7 +85,7 @@ fn c05d_delta_writer_sink_error() {
     let x: [u8; 4] = kani::any();
     let mut sink = FaultySink::<8>::new();
     sink.err_at = 0;
-    let mut w = DeltaWriter::new(sink, 1);
+    let mut w = DeltaWriter::new(&mut sink, 1);
     assert!(w.write(&x).is_err(), "C05-D: sink error swallowed by DeltaWriter");
     kani::cover!(true, "end reached");
 }
@@ -101,7 +102,7 @@ fn c11c_delta_reader_short_reads() {
     let mut src = FaultySrc::<6>::new(x, 6);
     src.chunk = kani::any();
     kani::assume(src.chunk >= 1 && src.chunk <= 6);
-    let mut r = DeltaReader::new(src, dist);
+    let mut r = DeltaReader::new(&mut src, dist);
     let mut out = [0u8; 6];
     let mut got = 0usize;
     let mut calls = 0;
